@@ -200,8 +200,8 @@ pub struct Exec {
 
 pub fn run_program<A: Z>(p: &Program, ar: &Arenas) -> Exec {
     let mut res = Vec::with_capacity(p.ops.len());
-    let mut d: [Box<z_stream>; 2] = [Box::new(zs()), Box::new(zs())];
-    let mut i: Box<z_stream> = Box::new(zs());
+    let mut d: [Box<z_stream>; 2] = [Box::new(zs_for::<A>()), Box::new(zs_for::<A>())];
+    let mut i: Box<z_stream> = Box::new(zs_for::<A>());
     let mut dpos = [0usize; 2];
     // deflatePrime is documented for raw streams before the first deflate() call only
     let mut d_params: [(c_int, c_int, c_int, c_int, c_int); 2] = [(0, 0, 0, 0, 0); 2];
@@ -230,7 +230,7 @@ pub fn run_program<A: Z>(p: &Program, ar: &Arenas) -> Exec {
                 if !d[0].state.is_null() {
                     unsafe { A::deflateEnd(&mut *d[0]) };
                 }
-                *d[0] = zs();
+                *d[0] = zs_for::<A>();
                 dpos[0] = 0;
                 d_out[0].clear();
                 r.rc = unsafe { A::deflateInit2(&mut *d[0], *level, *method, *wbits, *mem, *strategy) } as i64;
@@ -351,7 +351,7 @@ pub fn run_program<A: Z>(p: &Program, ar: &Arenas) -> Exec {
             Op::DReset { which } if p.reset_as_reinit && !d[*which].state.is_null() => {
                 let w = *which;
                 unsafe { A::deflateEnd(&mut *d[w]) };
-                *d[w] = zs();
+                *d[w] = zs_for::<A>();
                 let (l, m, wb, me, sg) = d_params[w];
                 r.rc = unsafe { A::deflateInit2(&mut *d[w], l, m, wb, me, sg) } as i64;
                 if let Some(hi) = d_hdr[w] {
@@ -382,11 +382,11 @@ pub fn run_program<A: Z>(p: &Program, ar: &Arenas) -> Exec {
                 if !d[1].state.is_null() {
                     unsafe { A::deflateEnd(&mut *d[1]) };
                 }
-                *d[1] = zs();
+                *d[1] = zs_for::<A>();
                 let (a, b) = d.split_at_mut(1);
                 r.rc = unsafe { A::deflateCopy(&mut *b[0], &mut *a[0]) } as i64;
                 if r.rc != 0 {
-                    *b[0] = zs();
+                    *b[0] = zs_for::<A>();
                 } else {
                     dpos[1] = dpos[0];
                     d_out[1] = d_out[0].clone();
@@ -404,7 +404,7 @@ pub fn run_program<A: Z>(p: &Program, ar: &Arenas) -> Exec {
                 if !i.state.is_null() {
                     unsafe { A::inflateEnd(&mut *i) };
                 }
-                *i = zs();
+                *i = zs_for::<A>();
                 ipos = 0;
                 i_out.clear();
                 r.rc = unsafe { A::inflateInit2(&mut *i, *wbits) } as i64;
@@ -468,7 +468,7 @@ pub fn run_program<A: Z>(p: &Program, ar: &Arenas) -> Exec {
                 }
             }
             Op::ICopyBack => {
-                let mut c = Box::new(zs());
+                let mut c = Box::new(zs_for::<A>());
                 r.rc = unsafe { A::inflateCopy(&mut *c, &mut *i) } as i64;
                 if r.rc == 0 {
                     unsafe { A::inflateEnd(&mut *i) };
